@@ -138,11 +138,32 @@ pub fn plan<'a>(ctx: &'a Ctx, rng: &mut Rng, tier: Tier) -> Plan<'a> {
                     cases.push(Case { tcs: vec![format!("a{}", c), "a".to_string()], cfg: Cfg::new(cls) });
                 }
             }
+            // a test case whose own text reads like a class token (`\d` written out) next to a member of that class: after the
+            // conversion the two are different clusters with the same printed text
+            let tokens: [(&str, &str, u32); 6] = [("\\d", "5", 1), ("\\D", "a", 2), ("\\s", " ", 4), ("\\S", "a", 8), ("\\w", "a", 16), ("\\W", "-", 32)];
+            for (tok, member, bit) in tokens {
+                for cls in [bit, 63u32, bit | 16, bit | 1] {
+                    for extra in [0u32, mask(&[BIT_ESC]), mask(&[BIT_CAP])] {
+                        let cfg = Cfg::new(cls | extra);
+                        cases.push(Case { tcs: vec![member.to_string(), tok.to_string()], cfg });
+                        cases.push(Case { tcs: vec![tok.to_string(), member.to_string()], cfg });
+                        cases.push(Case { tcs: vec![format!("x{}", member), format!("x{}", tok)], cfg });
+                        cases.push(Case { tcs: vec![format!("{}{}", member, member), format!("{}{}", tok, tok), tok.to_string()], cfg });
+                        cases.push(Case { tcs: vec![format!("{}.", member), format!("{}.", tok), "q".to_string()], cfg });
+                    }
+                }
+            }
+            let lwords = gen::words(gen::LOOKALIKE, 2);
+            for cls in [1u32, 16, 4, 63, 17, 42] {
+                for t in gen::sample_subsets(rng, &lwords, 3, if quick { 60 } else { 600 }) {
+                    cases.push(Case { tcs: t, cfg: Cfg::new(cls) });
+                }
+            }
             Plan {
                 cases,
                 judge: Box::new(move |c, b| judge::judge_exact(classes, c, b)),
                 stages: false,
-                explanation: "all 64 subsets of the six class options on words over a mixed alphabet, plus the boundary code points of the regex crate's own \\d/\\s/\\w tables under each option; language compared with the alternation of per-character class sequences built from the regex crate's own classes with the documented precedence".into(),
+                explanation: "all 64 subsets of the six class options on words over a mixed alphabet, plus the boundary code points of the regex crate's own \\d/\\s/\\w tables under each option, plus test cases whose own text reads like a class token next to members of that class; language compared with the alternation of per-character class sequences built from the regex crate's own classes with the documented precedence".into(),
                 exhaustive: false,
             }
         }
